@@ -198,6 +198,9 @@ func TestPaillierSequence(t *testing.T) {
 		hist := []item{cur}
 
 		steps := rapid.IntRange(0, 8).Draw(t, "steps")
+		if rapid.IntRange(1, 30).Draw(t, "longSequence") == 30 {
+			steps = rapid.SampledFrom([]int{12, 16}).Draw(t, "stepsBig") // no limit on the length of a sequence
+		}
 		var shape []string
 		for i := 0; i < steps; i++ {
 			lbl := fmt.Sprintf("s%d", i)
@@ -226,6 +229,11 @@ func TestPaillierSequence(t *testing.T) {
 				s.log = append(s.log, fmt.Sprintf("%s(m=%s,r=%s)", op, short(other.m), short(other.r)))
 			case "op-multi":
 				cnt := rapid.IntRange(1, 3).Draw(t, lbl+"cnt")
+				if rapid.IntRange(1, 10).Draw(t, lbl+"manyRest") == 10 {
+					// the variadic Op folds first, second and any number of further operands (no limit,
+					// no algorithm switch): occasionally 6, 7, 9 or 17 operands instead of 3..5
+					cnt = rapid.SampledFrom([]int{4, 5, 7, 15}).Draw(t, lbl+"cntBig")
+				}
 				var rc []*paillier.Ciphertext
 				var rp []*paillier.Plaintext
 				var rn []*paillier.Nonce
